@@ -189,28 +189,28 @@ def wopen (fl : Flavour) (cache : Path) (key : Option Bytes) (o : WriteOpts) : P
     | .err e => pure (.error (.io e))
     | _ => pure (.error (.io .other))
 
+/-- A write through the descriptor at the end of the temp file. -/
+def plainWrite (w : Writer) (d : Bytes) : Prog (Except EK (Writer × Nat)) := do
+  match ← call (.writeAt w.tmp w.pos d) with
+  | .nat n => pure (.ok ({ w with pos := w.pos + n, hashed := w.hashed ++ d.take n, written := w.written + n }, n))
+  | .err e => pure (.error e)
+  | _ => pure (.error .other)
+
 /-- One `write` call.  Data that fits the mapping is stored through it at the current offset;
 the first chunk that does not fit ends the mapping (the file is cut back to what was stored) and
 this and all later chunks are written through the descriptor. -/
 def wwrite (w : Writer) (d : Bytes) : Prog (Except EK (Writer × Nat)) := do
-  let plain (w : Writer) : Prog (Except EK (Writer × Nat)) := do
-    match ← call (.writeAt w.tmp w.pos d) with
-    | .nat n => pure (.ok ({ w with pos := w.pos + n, hashed := w.hashed ++ d.take n,
-                                     written := w.written + n }, n))
-    | .err e => pure (.error e)
-    | _ => pure (.error .other)
   match w.mmap with
   | some n =>
     if w.pos + d.length ≤ n then
       match ← call (.writeAt w.tmp w.pos d) with
       | .err e => pure (.error e)
-      | _ => pure (.ok ({ w with pos := w.pos + d.length, hashed := w.hashed ++ d,
-                                  written := w.written + d.length }, d.length))
+      | _ => pure (.ok ({ w with pos := w.pos + d.length, hashed := w.hashed ++ d, written := w.written + d.length }, d.length))
     else
       match ← call (.truncate w.tmp w.pos) with
       | .err e => pure (.error e)
-      | _ => plain { w with mmap := none }
-  | none => plain w
+      | _ => plainWrite { w with mmap := none } d
+  | none => plainWrite w d
 
 /-- `write::Writer::close` / `AsyncWriter::close`: publish the temp file under its address. -/
 def wclose (w : Writer) : Prog (Res Integrity) := do
